@@ -33,6 +33,8 @@ def run(ctx):
     d_priority(ctx, t)
     e_literal_text_verbatim(ctx)
     f_positional_by_name(ctx)
+    g_pattern_evaluated_per_event(ctx)
+    h_written_parameters_win(ctx)
 
 
 def f_positional_by_name(ctx):
@@ -78,6 +80,56 @@ def f_positional_by_name(ctx):
                   "the positional keys of the statement are moved to the declared parameter names before the reference event is built" if ok else
                   "the reference event of `match (flow \"x\").Finished()` keeps the keys `$0`, `$1`: it only matches instances that were STARTED with positional arguments - "
                   "`bot say(text=\"Hi\")` finished does not advance `match (bot say \"Hi\").Finished()`", line=c.lineno)
+
+
+FLOWS2 = "nemoguardrails/colang/v2_x/runtime/flows.py"
+
+
+def g_pattern_evaluated_per_event(ctx):
+    """A waiting `match` is compared with each event using the values its parameters have WHEN THAT EVENT ARRIVES: within one processing round another flow can change a
+    global the pattern reads (`match FlowFinished(flow_id=$target)`).  The expected event is therefore built afresh for every comparison - a memo per head / per round compares
+    later events with stale values.  Decided: every path through _compute_event_matching_score to the comparison passes the call that evaluates the statement."""
+    t = ctx.tree.ast(SM)
+    fn = find_function(t, "_compute_event_matching_score")
+    if fn is None:
+        raise AnalysisError("_compute_event_matching_score not found", anchor=SM + "::_compute_event_matching_score")
+    cfg = CFG(fn)
+    evals = [n for n in cfg.nodes if n.ast is not None and any(isinstance(c, ast.Call) and src(c.func) == "get_event_from_element" for c in walk_no_nested(n.ast))]
+    cmps = [n for n in cfg.nodes if n.ast is not None and any(isinstance(c, ast.Call) and src(c.func) == "_compute_event_comparison_score" for c in walk_no_nested(n.ast))]
+    ctx.floor("C04.g.pattern-per-event", SM, "comparisons of an event with a waiting match statement", len(cmps), 1)
+    for c in cmps:
+        ok = bool(evals) and cfg.must_pass(cfg.entry, c, evals)
+        ctx.check("C04.g.pattern-per-event", SM, fn.name, "the statement is evaluated for every event it is compared with", ok,
+                  "every path to the comparison evaluates the match statement (get_event_from_element) in the same call" if ok else
+                  "the comparison can be reached without evaluating the statement (a cached expected event): a parameter that reads a variable which changed since the first candidate "
+                  "event of the round is compared with its OLD value - `match FlowFinished(flow_id=$target)` misses the flow named by the new `$target`", line=c.line)
+
+
+def h_written_parameters_win(ctx):
+    """`match $ref.Finished(topic="sports")`: the expected event of a flow-instance reference is built by FlowState._create_out_event from the instance's own arguments AND the
+    parameters written in the statement.  For a name that occurs in both, the WRITTEN value is what "every parameter written in the statement is matched by the event's value"
+    talks about; if the instance's arguments are applied last the written value is replaced by the instance's actual one and the statement advances although it must not."""
+    t = ctx.tree.ast(FLOWS2)
+    fn = find_function(t, "_create_out_event", "FlowState")
+    if fn is None:
+        raise AnalysisError("FlowState._create_out_event not found", anchor=FLOWS2 + "::FlowState._create_out_event")
+    order = []     # ("own" | "written", position)
+    for n in ast.walk(fn):
+        if isinstance(n, ast.Call) and isinstance(n.func, ast.Attribute) and n.func.attr == "update" and n.args:
+            a = src(n.args[0])
+            order.append(("own" if a == "self.arguments" else ("written" if re.match(r"^\(?args\b", a) or a == "args" else None), (n.lineno, n.col_offset)))
+        if isinstance(n, ast.Dict):
+            for k, v in zip(n.keys, n.values):
+                if k is None:
+                    a = src(v)
+                    order.append(("own" if a == "self.arguments" else ("written" if re.search(r"\bargs\b", a) else None), (v.lineno, v.col_offset)))
+    order = sorted([o for o in order if o[0]], key=lambda o: o[1])
+    kinds = [o[0] for o in order]
+    ok = "own" in kinds and "written" in kinds and max(i for i, k_ in enumerate(kinds) if k_ == "own") < min(i for i, k_ in enumerate(kinds) if k_ == "written")
+    ctx.check("C04.h.written-parameters-win", FLOWS2, "FlowState._create_out_event", "order of instance arguments and written parameters", ok,
+              "the parameters written in the statement are applied after (over) the instance's own arguments" if ok else
+              "the instance's own arguments are applied after the parameters written in the statement (order: %s): `match $ref.Finished(topic=\"sports\")` on an instance started with "
+              "topic \"weather\" expects topic=\"weather\" and advances although the written value does not match" % kinds, line=fn.lineno)
 
 
 def e_literal_text_verbatim(ctx):
